@@ -75,7 +75,8 @@ where nodupStr : List Str → Bool
   | a :: r => !r.contains a && nodupStr r
 
 /-- every `<edge>` has a `label` attribute.  (Without it the real code stores Python `None` as the child's edge label - what
-    `IsXKids` says - while the reader MODEL stores the text `None`: a model/code disagreement, `C01Tiger2.exNoLabel`.) -/
+    `IsXKids` says - and so does the reader model since repair P11, `C01Tiger2.exNoLabel`; the hypothesis is no longer needed
+    by the `C01Tiger2` theorems.) -/
 def XLabelled (s : XSent) : Prop := ∀ nt ∈ s.nts, ∀ e ∈ nt.edges, e.1.isSome = true
 
 /-- no `<nt>` without `<edge>` (such an element is read as a childless constituent) -/
